@@ -65,6 +65,22 @@ impl std::io::Write for Env {
     }
 }
 
+/// SCALE `Input` that does not know how much is left (`remaining_len` answers `None`), as a network stream would.
+struct OpaqueInput<'a>(&'a [u8]);
+impl parity_scale_codec::Input for OpaqueInput<'_> {
+    fn remaining_len(&mut self) -> Result<Option<usize>, parity_scale_codec::Error> {
+        Ok(None)
+    }
+    fn read(&mut self, into: &mut [u8]) -> Result<(), parity_scale_codec::Error> {
+        if into.len() > self.0.len() {
+            return Err("not enough data".into());
+        }
+        into.copy_from_slice(&self.0[..into.len()]);
+        self.0 = &self.0[into.len()..];
+        Ok(())
+    }
+}
+
 fn opt<T: IntoV, E>(r: Result<T, E>) -> V {
     match r {
         Ok(x) => V::some(x.into_v()),
@@ -121,8 +137,12 @@ define_ops! {
     seq_ssz_vec = |a: U, b: U| { let v = vec![a, b]; let e = ssz::Encode::as_ssz_bytes(&v); let d = <Vec<Uint<B, L>> as ssz::Decode>::from_ssz_bytes(&e).ok().map(|x| V::L(x.into_iter().map(|y| y.into_v()).collect())); (e, d) };
     // ------------------------------------------------------------ decoders (C16 round trips, C17 totality)
     json_dec = |s: BY| opt(serde_json::from_slice::<Uint<B, L>>(&s));
+    // the same text through the other routes into the visitor: a byte-at-a-time stream, and a parsed `Value`
+    json_reader_dec = |s: BY| opt(serde_json::from_reader::<_, Uint<B, L>>(Env::new(s, 0, 1)));
+    json_value_dec = |s: BY| opt(serde_json::from_slice::<serde_json::Value>(&s).and_then(serde_json::from_value::<Uint<B, L>>));
     json_bits_dec = |s: BY| opt(serde_json::from_slice::<Bits<B, L>>(&s));
     bincode_dec = |s: BY| opt(bincode::deserialize::<Uint<B, L>>(&s));
+    bincode_reader_dec = |s: BY| { use bincode::Options; opt(bincode::DefaultOptions::new().with_fixint_encoding().allow_trailing_bytes().with_limit(1 << 16).deserialize_from::<_, Uint<B, L>>(Env::new(s, 0, 3))) };
     bincode_bits_dec = |s: BY| opt(bincode::deserialize::<Bits<B, L>>(&s));
     rlp_dec = |s: BY| opt(rlp::decode::<Uint<B, L>>(&s));
     rlp_bits_dec = |s: BY| opt(rlp::decode::<Bits<B, L>>(&s));
@@ -130,6 +150,8 @@ define_ops! {
     fastrlp03_dec = |s: BY| { let mut b = &s[..]; let r = <Uint<B, L> as fastrlp_03::Decodable>::decode(&mut b); (opt(r), s.len() - b.len()) };
     fastrlp04_dec = |s: BY| { let mut b = &s[..]; let r = <Uint<B, L> as fastrlp_04::Decodable>::decode(&mut b); (opt(r), s.len() - b.len()) };
     scale_dec = |s: BY| { let mut b = &s[..]; let r = <Uint<B, L> as parity_scale_codec::Decode>::decode(&mut b); (opt(r), s.len() - b.len()) };
+    scale_opaque_dec = |s: BY| { let mut b = OpaqueInput(&s); let r = <Uint<B, L> as parity_scale_codec::Decode>::decode(&mut b); (opt(r), s.len() - b.0.len()) };
+    compact_opaque_dec = |s: BY| { let mut b = OpaqueInput(&s); let r = <CompactUint<B, L> as parity_scale_codec::Decode>::decode(&mut b).map(|x| x.0); (opt(r), s.len() - b.0.len()) };
     compact_dec = |s: BY| { let mut b = &s[..]; let r = <CompactUint<B, L> as parity_scale_codec::Decode>::decode(&mut b).map(|x| x.0); (opt(r), s.len() - b.len()) };
     ssz_dec = |s: BY| opt(<Uint<B, L> as ssz::Decode>::from_ssz_bytes(&s));
     borsh_dec = |s: BY| opt(borsh::from_slice::<Uint<B, L>>(&s));
@@ -439,8 +461,8 @@ fn model(bits: usize, op: Op, args: &[V]) -> Expect {
         }
         seq_alloy_dec | seq_fastrlp04_dec | seq_scale_dec | seq_compact_dec | seq_borsh_dec | seq_bincode_dec | seq_json_dec | seq_rlp_dec => dont_care(),
         // ---------------------------------------------------------------- decoders
-        json_dec | json_bits_dec => from3(json_denotes(s()), bits, true),
-        bincode_dec | bincode_bits_dec => may_accept(bits, rc::bincode_denotes(s()).map(|x| x.0), None, true),
+        json_dec | json_bits_dec | json_reader_dec | json_value_dec => from3(json_denotes(s()), bits, true),
+        bincode_dec | bincode_bits_dec | bincode_reader_dec => may_accept(bits, rc::bincode_denotes(s()).map(|x| x.0), None, true),
         rlp_dec | rlp_bits_dec => may_accept(bits, rc::rlp_denotes(s()).map(|x| x.0), None, true),
         alloy_dec | fastrlp03_dec | fastrlp04_dec => {
             // canonical-form decoders: an accepted input re-encodes to exactly the bytes consumed
@@ -448,12 +470,12 @@ fn model(bits: usize, op: Op, args: &[V]) -> Expect {
             let used = den.as_ref().map(|x| x.1);
             may_accept(bits, den.map(|x| x.0), Some(used.unwrap_or(0)), true)
         }
-        scale_dec => {
+        scale_dec | scale_opaque_dec => {
             let den = rc::scale_bytes_denotes(s());
             let used = den.as_ref().map(|x| x.2);
             may_accept(bits, den.map(|x| x.0), Some(used.unwrap_or(0)), true)
         }
-        compact_dec => {
+        compact_dec | compact_opaque_dec => {
             let den = rc::compact_denotes(s());
             let used = den.as_ref().map(|x| x.1);
             may_accept(bits, den.map(|x| x.0), Some(used.unwrap_or(0)), true)
@@ -516,7 +538,12 @@ fn roundtrips(l: &mut Local, bits: usize, v: &BigUint) {
     must(l, Op::json_dec, rc::json_quantity(v).into_bytes(), false);
     let full = if bits == 0 { "\"0x0\"".to_string() } else { format!("\"0x{:0>w$}\"", v.to_str_radix(16), w = nb * 2) };
     must(l, Op::json_bits_dec, full.clone().into_bytes(), false);
-    must(l, Op::json_dec, full.into_bytes(), false);
+    must(l, Op::json_dec, full.clone().into_bytes(), false);
+    for op in [Op::json_reader_dec, Op::json_value_dec] {
+        must(l, op, rc::json_quantity(v).into_bytes(), false);
+        must(l, op, full.clone().into_bytes(), false);
+    }
+    must(l, Op::bincode_reader_dec, rc::bincode(v, nb), false);
     must(l, Op::bincode_dec, rc::bincode(v, nb), false);
     must(l, Op::bincode_bits_dec, rc::bincode(v, nb), false);
     must(l, Op::rlp_dec, rc::rlp(v), false);
@@ -525,8 +552,10 @@ fn roundtrips(l: &mut Local, bits: usize, v: &BigUint) {
     must(l, Op::fastrlp03_dec, rc::rlp(v), true);
     must(l, Op::fastrlp04_dec, rc::rlp(v), true);
     must(l, Op::scale_dec, rc::scale_bytes(&rc::fixed_le(v, nb)), true);
+    must(l, Op::scale_opaque_dec, rc::scale_bytes(&rc::fixed_le(v, nb)), true);
     if bits < 536 {
         must(l, Op::compact_dec, rc::compact(v), true);
+        must(l, Op::compact_opaque_dec, rc::compact(v), true);
     }
     must(l, Op::ssz_dec, rc::fixed_le(v, nb), false);
     must(l, Op::borsh_dec, rc::fixed_le(v, nb), false);
@@ -814,8 +843,8 @@ fn mutations(enc: &[u8]) -> Vec<Vec<u8>> {
 }
 
 const BYTE_DECODERS: &[Op] = &[
-    Op::json_dec, Op::json_bits_dec, Op::bincode_dec, Op::bincode_bits_dec, Op::rlp_dec, Op::rlp_bits_dec, Op::alloy_dec, Op::fastrlp03_dec, Op::fastrlp04_dec,
-    Op::scale_dec, Op::ssz_dec, Op::borsh_dec, Op::borsh_bits_dec, Op::borsh_reader_dec, Op::der_dec, Op::der_anyref_dec, Op::der_any_dec, Op::der_intref_dec,
+    Op::json_dec, Op::json_reader_dec, Op::json_value_dec, Op::json_bits_dec, Op::bincode_dec, Op::bincode_reader_dec, Op::bincode_bits_dec, Op::rlp_dec, Op::rlp_bits_dec, Op::alloy_dec, Op::fastrlp03_dec, Op::fastrlp04_dec,
+    Op::scale_dec, Op::scale_opaque_dec, Op::ssz_dec, Op::borsh_dec, Op::borsh_bits_dec, Op::borsh_reader_dec, Op::der_dec, Op::der_anyref_dec, Op::der_any_dec, Op::der_intref_dec,
     Op::der_int_dec, Op::der_uintref_dec, Op::der_uint_dec, Op::biguint_try, Op::try_from_be_slice, Op::try_from_le_slice, Op::from_str,
 ];
 
@@ -827,7 +856,10 @@ fn decode_all(l: &mut Local, bits: usize, input: &[u8]) {
     }
     if bits < 536 {
         exec(l, bits, Op::compact_dec, &args);
+        exec(l, bits, Op::compact_opaque_dec, &args);
     }
+    // a stream that delivers the bytes in pieces (3 bytes per read)
+    exec(l, bits, Op::borsh_env_dec, &[args[0].clone(), V::n(0), V::n(3)]);
     for t in 0..PG_TYPES.len() {
         exec(l, bits, Op::pg_from_sql, &[V::n(t), args[0].clone()]);
     }
